@@ -28,5 +28,6 @@ def run(ctx):
     rep.guarded("W1", "anstream::strip::write", lambda: stripstream.rule_W1_W3(facts, rep))
     rep.guarded("W2a", "anstream::strip::write", lambda: stripstream.rule_W2(facts, rep))
     rep.guarded("W4", "anstream::strip::write_all", lambda: stripstream.rule_W4(facts, rep))
-    for r, n in (("W1", 4), ("W2a", 2), ("W2b", 1), ("W3", 5), ("W4", 10)):
+    rep.guarded("W5", "anstream::strip", lambda: stripstream.rule_through(facts, rep, "W5"))
+    for r, n in (("W1", 4), ("W2a", 2), ("W2b", 1), ("W3", 5), ("W4", 10), ("W5", 7)):
         rep.floor(r, n)
